@@ -46,9 +46,19 @@ fn gen_case(ctx: &mut Ctx) -> Case {
     let others = ctx.tape.weighted(&[4, 2, 1, 1]);
     let position = ctx.pick(others + 1);
     let mut uniq = 0;
+    let mut last: Option<RpcErr> = None;
     let mut err = |ctx: &mut Ctx| {
+        // one error in six repeats the previous one field for field (Junos reports the same error once
+        // per affected statement): the reported list must still have one entry per element
+        if let Some(prev) = &last {
+            if ctx.chance(1, 6) {
+                return prev.clone();
+            }
+        }
         uniq += 1;
-        gen_rpc_error_with_extras(ctx, uniq, 2, 6)
+        let e = gen_rpc_error_with_extras(ctx, uniq, 2, 6);
+        last = Some(e.clone());
+        e
     };
     let mut items = Vec::new();
     // typical shapes first (small tape values), free-form sequences otherwise
@@ -362,7 +372,7 @@ pub static C08: PropSpec = PropSpec {
     runs: |t| if t == Tier::Thorough { 30_000_000 } else { 200_000 },
     enumerated: |_| 0,
     run,
-    rule: "one request of each reply type (lock, get, open-/close-configuration, load-configuration, commit-configuration) among 0-3 other outstanding requests, replies delivered in order or permuted and reply futures awaited in a seeded order; in one run of six the send of one of the other requests reports an I/O error after its bytes went out (the caller gives it up and carries on; the server answers it with the positive reply of the operation under test, which must not be taken for the reply to a later request); the server's reply is generated from the reply grammar: 0-4 rpc-error elements (all types/tags, severity error/warning, optional children; one in six with a vendor child such as Junos's <source-daemon> or an open-ended error-info child, which the library's reader may refuse - the reply must then still not be a success and no error may vanish from the reported list) and positive indications in every order, at top level or inside load-configuration-results with consistent or inconsistent load-error-count. Non-trivial = the document contains at least one rpc-error; distinct = distinct event-log hash (includes the generated document)",
+    rule: "one request of each reply type (lock, get, open-/close-configuration, load-configuration, commit-configuration) among 0-3 other outstanding requests, replies delivered in order or permuted and reply futures awaited in a seeded order; in one run of six the send of one of the other requests reports an I/O error after its bytes went out (the caller gives it up and carries on; the server answers it with the positive reply of the operation under test, which must not be taken for the reply to a later request); the server's reply is generated from the reply grammar: 0-4 rpc-error elements (all types/tags, severity error/warning, optional children; one in six repeats the previous element field for field; one in six with a vendor child such as Junos's <source-daemon> or an open-ended error-info child, which the library's reader may refuse - the reply must then still not be a success and no error may vanish from the reported list) and positive indications in every order, at top level or inside load-configuration-results with consistent or inconsistent load-error-count. Non-trivial = the document contains at least one rpc-error; distinct = distinct event-log hash (includes the generated document)",
     components: &[
         ("netconf session + message readers (rpc/mod.rs, rpc/error.rs, junos/mod.rs, junos/load_configuration.rs)", "real"),
         ("transport", "stub: in-memory"),
